@@ -558,9 +558,14 @@ theorem parse_marshal {β : Type} (T : Tables) (hT : T.OK) (C : BodyCodec β) (n
       m'.cls = m.cls ∧ m'.serial = m.serial ∧ m'.expectReply = m.expectReply ∧ m'.autoStart = m.autoStart ∧
       (∀ a, m'.attrs a = plain (m.attrs a)) ∧
       m'.body = (if truthy (m.attrs .signature) then some decoded else none) ∧
-      m'.rawHeader = m.rawHeader ∧ m'.rawPadding = m.rawPadding ∧ m'.rawBody = m.rawBody := by
+      m'.rawHeader = m.rawHeader ∧ m'.rawPadding = m.rawPadding ∧ m'.rawBody = m.rawBody ∧
+      m'.otherFlags = 0 ∧ m.otherFlags = 0 := by
   obtain ⟨sm, hb⟩ := construct_ok T hT C na maxLen st st' c m h
   obtain ⟨henc, _⟩ := built_valid hT hb hsig hs
+  have hof : sm.flags / 4 * 4 = 0 := by
+    have h4 := flagsByte_lt c.pre.expectReply c.pre.autoStart
+    have : sm.flags = flagsByte c.pre.expectReply c.pre.autoStart := by rw [hb.smEq]; rfl
+    rw [this]; omega
   have heq := hb.smEq
   have hmt : sm.mtype = T.messageType m.cls := by rw [heq, hb.cls]; rfl
   have hfl : sm.flags = flagsByte m.expectReply m.autoStart := by rw [heq, hb.er, hb.as_]; rfl
@@ -596,7 +601,7 @@ theorem parse_marshal {β : Type} (T : Tables) (hT : T.OK) (C : BodyCodec β) (n
   · -- signature None
     rw [hnone]
     simp only [plain, truthy, Bool.false_eq_true, if_false]
-    refine ⟨_, rfl, rfl, hse, ?_, ?_, hattrs, rfl, hb.hdr.symm, hb.pad.symm, hbo⟩
+    refine ⟨_, rfl, rfl, hse, ?_, ?_, hattrs, rfl, hb.hdr.symm, hb.pad.symm, hbo, hof, hb.other⟩
     · simp only [parsedBase, hfl, flags_er]; cases m.expectReply <;> simp
     · simp only [parsedBase, hfl, flags_as]; cases m.autoStart <;> simp
   · rw [hsg]
@@ -604,7 +609,7 @@ theorem parse_marshal {β : Type} (T : Tables) (hT : T.OK) (C : BodyCodec β) (n
     cases sg with
     | nil =>
       simp only [truthy, List.isEmpty_nil, Bool.not_true, Bool.false_eq_true, if_false]
-      refine ⟨_, rfl, rfl, hse, ?_, ?_, hattrs, rfl, hb.hdr.symm, hb.pad.symm, hbo⟩
+      refine ⟨_, rfl, rfl, hse, ?_, ?_, hattrs, rfl, hb.hdr.symm, hb.pad.symm, hbo, hof, hb.other⟩
       · simp only [parsedBase, hfl, flags_er]; cases m.expectReply <;> simp
       · simp only [parsedBase, hfl, flags_as]; cases m.autoStart <;> simp
     | cons ch cs =>
@@ -628,7 +633,7 @@ theorem parse_marshal {β : Type} (T : Tables) (hT : T.OK) (C : BodyCodec β) (n
       simp only [truthy, List.isEmpty_cons, Bool.not_false, if_true]
       rw [if_neg hlen, hbo, ← hbody, hen]
       simp only [decide_true, hm2]
-      refine ⟨_, rfl, rfl, hse, ?_, ?_, hattrs, rfl, hb.hdr.symm, hb.pad.symm, by rw [hbody]; exact hbo⟩
+      refine ⟨_, rfl, rfl, hse, ?_, ?_, hattrs, rfl, hb.hdr.symm, hb.pad.symm, by rw [hbody]; exact hbo, hof, hb.other⟩
       · simp only [parsedBase, hfl, flags_er]; cases m.expectReply <;> simp
       · simp only [parsedBase, hfl, flags_as]; cases m.autoStart <;> simp
 
@@ -705,7 +710,8 @@ theorem parse_foreign {β : Type} (T : Tables) (hT : T.OK) (C : BodyCodec β) (w
       m'.body = (match fieldFor T known .signature with
                  | some (.text _ (_ :: _)) => some decoded
                  | _ => none) ∧
-      m'.rawBody = w.body ∧ (m'.rawHeader ++ m'.rawPadding ++ m'.rawBody) = Spec.encodeMsg w := by
+      m'.rawBody = w.body ∧ (m'.rawHeader ++ m'.rawPadding ++ m'.rawBody) = Spec.encodeMsg w ∧
+      m'.otherFlags = w.flags / 4 * 4 := by
   have henc := SpecMsg.encodable_of_valid w hw
   have hlc : lookupClass T w.mtype = some cls := by rw [hcls]; exact (hT.mtype cls).2.2
   rw [parse_spec T hT C w henc cls hlc fds hfd]
@@ -749,7 +755,7 @@ theorem parse_foreign {β : Type} (T : Tables) (hT : T.OK) (C : BodyCodec β) (w
     rw [hsf] at hsigattr
     rw [hsigattr]
     simp only [truthy, Bool.false_eq_true, if_false]
-    exact ⟨_, rfl, rfl, rfl, rfl, rfl, hattrs, rfl, rfl, hraw⟩
+    exact ⟨_, rfl, rfl, rfl, rfl, rfl, hattrs, rfl, rfl, hraw, rfl⟩
   | some hv =>
     rw [hsf] at hsigattr
     have hty := hsigty hv hsf
@@ -779,7 +785,7 @@ theorem parse_foreign {β : Type} (T : Tables) (hT : T.OK) (C : BodyCodec β) (w
       cases sg with
       | nil =>
         simp only [truthy, List.isEmpty_nil, Bool.not_true, Bool.false_eq_true, if_false]
-        exact ⟨_, rfl, rfl, rfl, rfl, rfl, hattrs, rfl, rfl, hraw⟩
+        exact ⟨_, rfl, rfl, rfl, rfl, rfl, hattrs, rfl, rfl, hraw, rfl⟩
       | cons ch cs =>
         have hlen : ¬ (ch :: cs).length > 255 := by
           simp only [fieldFor] at hsf
@@ -798,7 +804,7 @@ theorem parse_foreign {β : Type} (T : Tables) (hT : T.OK) (C : BodyCodec β) (w
         have hdec := hC (ch :: cs) (by rw [hsf]) (by simp)
         simp only [truthy, List.isEmpty_cons, Bool.not_false, if_true]
         rw [if_neg hlen, hdec]
-        exact ⟨_, rfl, rfl, rfl, rfl, rfl, hattrs, rfl, rfl, hraw⟩
+        exact ⟨_, rfl, rfl, rfl, rfl, rfl, hattrs, rfl, rfl, hraw, rfl⟩
 
 
 theorem nodup_map_some {α : Type} : ∀ (l : List α), l.Nodup → (l.map some).Nodup
@@ -856,13 +862,14 @@ theorem parse_foreign_of_constructed {β : Type} (T : Tables) (hT : T.OK) (C : B
           m'.cls = m.cls ∧ m'.serial = w.serial ∧
           m'.expectReply = decide (w.flags % 2 = 0) ∧ m'.autoStart = decide (w.flags / 2 % 2 = 0) ∧
           (∀ a, m'.attrs a = plain (m.attrs a)) ∧
-          m'.body = (if truthy (m.attrs .signature) then some decoded else none) ∧ m'.rawBody = w.body := by
+          m'.body = (if truthy (m.attrs .signature) then some decoded else none) ∧ m'.rawBody = w.body ∧
+          m'.otherFlags = w.flags / 4 * 4 := by
   obtain ⟨sm, hb⟩ := construct_ok T hT C na maxLen st st' c m h
   refine ⟨sm, hb.spec, ?_⟩
   intro w extra hw hmt hperm hextra fds hfd decoded hC
   have hmt' : w.mtype = T.messageType m.cls := by rw [hmt, hb.smEq, hb.cls]; rfl
   have hknown := built_knownNodup hT hb
-  obtain ⟨m', p1, p2, p3, p4, p5, p6, p7, p8, _⟩ :=
+  obtain ⟨m', p1, p2, p3, p4, p5, p6, p7, p8, _, p10⟩ :=
     parse_foreign T hT C w hw m.cls hmt' sm.fields extra hperm hextra hknown fds hfd decoded hC
   -- the known fields of `sm` say exactly what the attributes of `m` are
   have hview : ∀ a, (match fieldFor T sm.fields a with
@@ -872,7 +879,7 @@ theorem parse_foreign_of_constructed {β : Type} (T : Tables) (hT : T.OK) (C : B
     have e1 := applyFields_perm T sm.fields sm.fields [] (by simp) (by intro f hf; cases hf) hknown fds a
     rw [← e1, hb.fieldsPy fds]
     exact own_attrs T hT m.cls (hasFds m) m.attrs (built_inTable hT hb) a
-  refine ⟨m', p1, p2, p3, p4, p5, fun a => by rw [p6 a, hview a], ?_, p8⟩
+  refine ⟨m', p1, p2, p3, p4, p5, fun a => by rw [p6 a, hview a], ?_, p8, p10⟩
   -- the body: decided by the signature field, which is `m`'s signature attribute
   rw [p7]
   have hsigv := hview .signature
